@@ -1,83 +1,13 @@
 ------------------------------ MODULE CodeTags ------------------------------
 (***************************************************************************)
-(* Code tags (property C11).                                               *)
-(*                                                                         *)
-(* Reference semantics, taken from docs/code_tags.rst: a file is a         *)
-(* sequence of lines; a line is a tag comment                              *)
-(*     -- vsg_off [ids]   -- vsg_on [ids]   -- vsg_disable_next_line ids   *)
-(* or an ordinary line.  Suppressed(rule) on an ordinary line holds when   *)
-(* the line is inside an unmatched bare vsg_off, or inside a vsg_off that  *)
-(* names the rule and has not been followed by a vsg_on naming it (or a    *)
-(* bare vsg_on), or when the line directly follows a run of consecutive    *)
-(* vsg_disable_next_line comments one of which names the rule.             *)
-(*                                                                         *)
-(* Implementation: transcription of vsg/vhdlFile/code_tags.py (the tag     *)
-(* state machine), vhdlFile.set_code_tags (stamping of every token) and    *)
-(* parser.item.has_code_tag (the test a violation is filtered with).       *)
-(*                                                                         *)
-(* TLC runs both machines in lock step over every sequence of line kinds   *)
-(* up to MaxLines and compares, on every ordinary line, the set of         *)
-(* suppressed rules.  The tag-carrying lines themselves are unconstrained  *)
-(* (the property speaks of what lies between tags / the following line).   *)
+(* Reference (documentation) and implementation code-tag machines of       *)
+(* CodeTagsOps.tla run in lock step over every sequence of line kinds      *)
+(* (property C11).  See CodeTagsOps.tla for the two machines.              *)
 (***************************************************************************)
-EXTENDS Naturals, Sequences, FiniteSets, SequencesExt
-
+EXTENDS CodeTagsOps
 CONSTANTS MaxLines,
           HasCodeTagTestsMembership   \* TRUE: has_code_tag is  "all" in code_tags ; FALSE: code_tags == ["all"]
-
-Ids   == {"a", "b"}          \* rule ids that tags may name
-Rules == {"a", "b", "c"}     \* "c" stands for every rule no tag names
-ALL   == "all"
-
-\* ---- line kinds
-IdSets == (SUBSET Ids) \ {{}}
-LineKinds == {[k |-> "off", ids |-> {}], [k |-> "on", ids |-> {}], [k |-> "code", ids |-> {}]}
-             \cup {[k |-> kk, ids |-> s] : kk \in {"off", "on", "next"}, s \in IdSets}
-
-(***************************************************************************)
-(* Reference machine                                                       *)
-(***************************************************************************)
-RefInit == [allOff |-> FALSE, off |-> {}, next |-> {}]
-\* state after the line; nextLive: the next-line set that applies to the line that follows
-RefStep(st, ln) ==
-  CASE ln.k = "off" /\ ln.ids = {} -> [allOff |-> TRUE,  off |-> {},               next |-> {}]
-    [] ln.k = "off"                -> [allOff |-> st.allOff, off |-> st.off \cup ln.ids, next |-> {}]
-    [] ln.k = "on" /\ ln.ids = {}  -> [allOff |-> FALSE, off |-> {},               next |-> {}]
-    [] ln.k = "on"                 -> [allOff |-> st.allOff, off |-> st.off \ ln.ids,    next |-> {}]
-    [] ln.k = "next"               -> [allOff |-> st.allOff, off |-> st.off,             next |-> st.next \cup ln.ids]
-    [] OTHER                       -> [allOff |-> st.allOff, off |-> st.off,             next |-> {}]
-\* rules suppressed on an ordinary line read in state st (before the line is consumed)
-RefSuppressed(st) == IF st.allOff THEN Rules ELSE st.off \cup st.next
-
-(***************************************************************************)
-(* Implementation machine (code_tags.New + set_code_tags + has_code_tag)   *)
-(***************************************************************************)
-ImplInit == [tags |-> <<>>, next |-> <<>>, ign |-> FALSE]
-SeqAdd(s, x)    == IF x \in Range(s) THEN s ELSE Append(s, x)
-SeqRemove(s, x) == SelectSeq(s, LAMBDA y : y # x)
-\* ids are processed in the order they are written; the model fixes one order (a before b): the outcome as a set is order-free
-IdSeq(S) == SetToSortSeq(S, LAMBDA x, y : x = "a" /\ y = "b")
-GetTags(st) == st.tags \o st.next
-
-\* update() on the comment token of a tag line
-ImplComment(st, ln) ==
-  CASE ln.k = "on"  -> IF ln.ids = {} THEN [st EXCEPT !.tags = <<>>, !.next = <<>>]                       \* clear()
-                        ELSE [st EXCEPT !.tags = FoldLeft(SeqRemove, st.tags, IdSeq(ln.ids))]
-    [] ln.k = "off" -> IF ln.ids = {} THEN [st EXCEPT !.tags = <<ALL>>, !.next = <<>>]                    \* clear(); add("all")
-                        ELSE [st EXCEPT !.tags = FoldLeft(SeqAdd, st.tags, IdSeq(ln.ids))]
-    [] ln.k = "next" -> [st EXCEPT !.next = FoldLeft(SeqAdd, st.next, IdSeq(ln.ids)), !.ign = TRUE]
-    [] OTHER -> st
-\* update() on the carriage return that ends every line
-ImplCR(st) == IF st.ign THEN [st EXCEPT !.ign = FALSE] ELSE [st EXCEPT !.next = <<>>]
-
-\* the stamp (token.code_tags) the tokens of an ordinary line receive, and the state after the line
-ImplStampCode(st) == GetTags(st)
-ImplStep(st, ln) == ImplCR(IF ln.k = "code" THEN st ELSE ImplComment(st, ln))
-
-HasCodeTag(stamp, r) ==
-  \/ (IF HasCodeTagTestsMembership THEN ALL \in Range(stamp) ELSE stamp = <<ALL>>)
-  \/ r \in Range(stamp)
-ImplSuppressed(st) == {r \in Rules : HasCodeTag(ImplStampCode(st), r)}
+ImplSuppressed(st) == ImplSuppressedM(st, HasCodeTagTestsMembership)
 
 (***************************************************************************)
 (* Lock-step state machine                                                 *)
